@@ -566,7 +566,7 @@ func TestC23(t *testing.T) {
 		m.Count("utctime_pivot_cases", 1)
 		if straddles {
 			m.Count(fmt.Sprintf("utctime_pivot_straddling:yy=%02d", yy), 1)
-			if yy == 49 || yy == 50 {
+			if (yy == 49 && end) || (yy == 50 && !end) { // the boundary crossed is 2049/2050 itself
 				m.Count("utctime_pivot_straddling_2050", 1)
 			}
 		}
